@@ -18,7 +18,7 @@ from . import common
 
 ID = 'C16'
 LEVEL = 'fault_enumeration'
-RUNS = {'quick': 8000, 'thorough': 200000}
+RUNS = {'quick': 32000, 'thorough': 200000}
 SIM_TIME_UNIT = 'samples (discrete) + dense time units'
 RULE = ('seeded generation of (specification without unbounded future, log); inside each run the log is truncated at EVERY '
         'sample index (discrete) or at every sample instant common cut plus 6 sampled per-variable cuts (dense); non-trivial = the '
